@@ -16,7 +16,7 @@ ID = "C17"
 LEVEL = "proof"
 LEVEL_TEXT = ("Lean 4 theorems on a model of the wrappers: the six orders of applying one name, cached and serializable give the "
               "same wrapper, a second name raises, cached/serializable are idempotent, and cached_transparent: for every call "
-              "sequence the memoised wrapper returns exactly the underlying function's values. Tied to /repo by running generated "
+              "sequence the memoised wrapper returns exactly the underlying function's values (and, for partial functions, raises exactly when the function raises). Tied to /repo by running generated "
               "wrapper programs and call sequences (scalars, arrays, equal-but-distinct arrays, the same object again, keyword "
               "arguments) on the real wrappers and comparing names/classes and the hit/miss pattern of the memo with the model; "
               "string expressions from a small grammar are evaluated against the equivalent Python function on dict records, "
